@@ -40,7 +40,7 @@ def main():
         pid = p['id']
         if (pid in CLAIMED and os.path.exists(os.path.join(VERIF, 'harness', 'props', pid.lower() + '.py')) and
                 os.path.exists(os.path.join(VERIF, 'lean', 'DiffxVerif', 'Audit', pid + '.lean')) and
-                os.path.exists(os.path.join(VERIF, 'lean', 'DiffxVerif', 'Lemmas', {'C08': 'ReaderTotal'}.get(pid, 'Split') + '.lean'))):
+                os.path.exists(os.path.join(VERIF, 'lean', 'DiffxVerif', 'Lemmas', {'C08': 'ReaderTotal', 'C01': 'RoundTrip', 'C02': 'RoundTrip', 'C07': 'ReaderFrame', 'C12': 'ReaderFrame', 'C03': 'SpecRead', 'C05': 'Dom', 'C06': 'Dom', 'C13': 'Stats', 'C15': 'Codec', 'C18': 'Dom', 'C19': 'Dom', 'C20': 'Lexer'}.get(pid, 'Split') + '.lean'))):
             text, note = CLAIMED[pid]
             checks.append({
                 'property_id': pid,
